@@ -118,7 +118,8 @@ func (p *Program) deepFields(nt *types.Named, depth int) []*types.Var {
 			continue
 		}
 		_, byPtr := f.Type().(*types.Pointer)
-		if (f.Embedded() || !byPtr) && p.partOf(inner) {
+		if ((f.Embedded() || !byPtr) && p.partOf(inner)) || (f.Embedded() && !byPtr) {
+			// (the fields of a struct embedded by value are promoted, whoever else embeds it)
 			out = append(out, p.deepFields(inner, depth+1)...)
 		}
 	}
@@ -191,7 +192,8 @@ func (p *Program) resolveRoles() {
 			}
 			var cands []*types.Var
 			for _, f := range fields {
-				if !present[f] && typeStr(f.Type()) == r.typeStr && p.roleName[f] == "" {
+				if !present[f] && typeStr(f.Type()) == r.typeStr && (p.roleName[f] == "" || p.roleName[f] == r.field) {
+					// (a field of a struct embedded by several owners plays the same role in each of them)
 					cands = append(cands, f)
 				}
 			}
